@@ -92,6 +92,25 @@ func (s *Sim) pickLocked(e []*worker) int {
 		} else {
 			v = s.rng.intn(n)
 		}
+	case "targeted":
+		// switch away preferably right after the running worker released a lock (the window
+		// between "unlock" and "park"), or when a timer callback has just been dispatched
+		p := 0.03
+		if e[0] == s.last && s.last.unlocked {
+			p = 0.6
+		}
+		for _, w := range e[1:] {
+			if w.site == "timer-callback" && w.steps == 0 {
+				p = 0.5
+			}
+		}
+		if e[0] == s.last {
+			if s.rng.float() < p {
+				v = 1 + s.rng.intn(n-1)
+			}
+		} else {
+			v = s.rng.intn(n)
+		}
 	case "pct":
 		v = s.pctPick(e)
 	default: // uniform
